@@ -7,6 +7,8 @@
 (* must carry (z = the standard-normal output for the same seed), and the *)
 (* admitted outlier rows.  A row map entry is <<a, b>> per column with    *)
 (* b = sqrt(variance) (variances are perfect squares so that b is exact). *)
+(* Profile selects the parameter values: "distinct" (all different from   *)
+(* the identity map) or "identity_mixed" (see MeanOf / SdOf).              *)
 (* IMPLEMENTATION LAYER: validation chain, then the in-place affine       *)
 (* transform applied segment by segment / anomaly by anomaly (one action  *)
 (* per loop turn) with Python slice semantics, so that a negative         *)
@@ -17,7 +19,7 @@
 (***************************************************************************)
 EXTENDS Common, TLC, Json
 
-CONSTANTS N, P, MaxK, Check, Emit, NSlices, Slice
+CONSTANTS N, P, MaxK, Check, Emit, NSlices, Slice, Profile
 
 Posns == (0 - 1)..(N + 1)
 
@@ -26,8 +28,15 @@ vars == <<fn, pos, nmeans, nvars, outcome, rowmap, k, pc>>
 
 \* the requested parameters: item j (segment j or anomaly j, 1-based) has mean j + 10*c and sd j + 1
 \* in column c; when a single mean / variance is given it applies to every item
-MeanOf(j, c) == IF nmeans = 1 THEN 1 + 10 * c ELSE j + 10 * c
-SdOf(j)      == IF nvars = 1 THEN 2 ELSE j + 1
+\* Profile = "identity_mixed": the same grid with parameters that coincide with the untransformed noise in SOME
+\* places only -- odd items have mean 0 in every column, column 1 has sd 1 for every item, even items have sd 1 in
+\* every column -- so that a shortcut for "nothing to do" that tests too little is exercised (seeded change C18-d)
+MJ(j) == IF nmeans = 1 THEN 1 ELSE j      \* which of the given means / variances item j uses
+VJ(j) == IF nvars = 1 THEN 1 ELSE j
+MeanOf(j, c) == IF Profile = "identity_mixed" THEN (IF MJ(j) % 2 = 1 THEN 0 ELSE MJ(j) + 10 * c)
+                ELSE IF nmeans = 1 THEN 1 + 10 * c ELSE j + 10 * c
+SdOf(j, c)   == IF Profile = "identity_mixed" THEN (IF c = 1 \/ VJ(j) % 2 = 0 THEN 1 ELSE VJ(j) + 1)
+                ELSE IF nvars = 1 THEN 2 ELSE j + 1
 Identity     == [c \in 1..P |-> <<0, 1>>]
 
 NItems == IF fn = "changing" THEN Len(pos) + 1 ELSE Len(pos)
@@ -44,7 +53,7 @@ MustRaise == ~CountsOK \/ ~InsideOK
 Judged == IF fn = "changing" THEN \A i \in 1..Len(pos) : pos[i] >= 0 /\ pos[i] <= N - 1
           ELSE InsideOK
 \* composition of affine maps: the later item applies on top of what is there
-Compose(j, old) == [c \in 1..P |-> <<MeanOf(j, c) + SdOf(j) * old[c][1], SdOf(j) * old[c][2]>>]
+Compose(j, old) == [c \in 1..P |-> <<MeanOf(j, c) + SdOf(j, c) * old[c][1], SdOf(j, c) * old[c][2]>>]
 RECURSIVE ApplyAll(_, _)
 \* row i after all items 1..j, by definition: segment containing i / every anomaly covering i, in order
 ApplyAll(i, j) ==
@@ -124,7 +133,7 @@ FloorRowsAdmitted == \A n \in 1..(2 * N) : \A kk \in 1..n : OutlierAdmits(n, kk,
 (* --------------------------------- emission ---------------------------- *)
 CaseRecord ==
     [fn |-> fn, n |-> N, p |-> P, pos |-> pos, nmeans |-> nmeans, nvars |-> nvars,
-     means |-> [j \in 1..nmeans |-> [c \in 1..P |-> MeanOf(j, c)]], sds |-> [j \in 1..nvars |-> SdOf(j)],
+     means |-> [j \in 1..nmeans |-> [c \in 1..P |-> MeanOf(j, c)]], sds |-> [j \in 1..nvars |-> [c \in 1..P |-> SdOf(j, c)]], profile |-> Profile,
      must_raise |-> MustRaise, judged |-> Judged /\ CountsOK,
      rowmap |-> IF Judged /\ CountsOK THEN [i \in 1..N |-> RowMapDef[i - 1]] ELSE <<>>]
 EmitDone == (Emit /\ pc = "done") => PrintT(<<"CASE", ToJson(CaseRecord)>>)
